@@ -271,7 +271,7 @@ func runC13(rc *RunCtx) {
 				breq := reqs[0]
 				for r := range readers {
 					for i := range readers[r] {
-						if o := &readers[r][i]; (o.Kind == 23 || o.Kind == 24) {
+						if o := &readers[r][i]; o.Kind == 23 || o.Kind == 24 {
 							fs := append([]modbus.Field(nil), breq.Fields...)
 							rot := t.Choose(len(fs))
 							fs = append(fs[rot:], fs[:rot]...)
